@@ -84,7 +84,8 @@ def cases(tier):
                 yield dict(kind="nuc", alpha=kind, seqs=seqs[i:i + 32], tier=tier)
     letters = sorted(AA3)
     prot = [a for a in letters] + [a + b for a in letters for b in letters] + \
-           [f[:i] + a + f[i + 1:] for f in ("GAV", "KDE") for i in range(3) for a in letters]
+           [f[:i] + a + f[i + 1:] for f in ("GAV", "KDE") for i in range(3) for a in letters] + \
+           ["RNA", "DNA", "GRNAK", "KDNAG", "RNADNA"]      # protein sequences whose letters spell the keywords of the other kinds
     for i in range(0, len(prot), 60):
         yield dict(kind="prot", seqs=prot[i:i + 60], tier=tier)
     yield dict(kind="dress", alpha="DNA", tier=tier)
@@ -153,6 +154,7 @@ def check_dress(case):
                     ("ig", "title-ends-in-1-circular", f"; {kind}\nSEQ1\n{seq}2\n", True),
                     ("ig", "title-is-a-digit", f"; {kind}\n1\n{seq}1\n", False),
                     ("ig", "three-comments", f"; one\n; two {kind}\n; three\nT1\n{seq}1\n", False),
+                    ("ig", "title-names-another-kind", f"; {kind}\nPROTEIN binding site\n{seq}1\n", False),
                     ("ig", "no-final-newline", f"; {kind}\nT1\n{seq}2", True),
                 ]
                 for fmt, dress, text, circ in variants:
@@ -179,7 +181,8 @@ def check_prot(case):
             for parts in compositions(len(seq)):
                 body = "\n".join(seq[a:b] for a, b in parts)
                 for fmt, fname, text in (("fasta", "p.fasta", f">sp|P1 PROTEIN test\n{body}\n"),
-                                         ("ig-linear", "p.ig", f"; PROTEIN sequence\nTITLE\n{body}1\n")):
+                                         ("ig-linear", "p.ig", f"; PROTEIN sequence\nTITLE\n{body}1\n"),
+                                         ("ig-linear", "p.ig", f"; PROTEIN sequence\nDNA polymerase, RNA binding\n{body}1\n")):
                     evals += 1
                     case1 = dict(kind="prot1", fmt=fmt, fname=fname, text=text, seq=seq)
                     try:
